@@ -1,11 +1,16 @@
 #!/bin/sh
-# usage: mutant.sh "<sed expr>" <file under /repo> <check id>...   (applies, runs quick checks, reverts)
+# usage: mutant.sh "<sed expr>" <file under /repo> <check id>...
+# Applies a mutation to a PRIVATE scratch copy of /repo (never to /repo itself, so concurrent
+# builders and checks are not disturbed), builds a private copy of the harness against it, runs
+# the quick checks there and prints their verdict lines. Scratch: /tmp/mut-<first check id>/.
 E=$1; F=$2; shift 2
-cd /repo
-cp $F /tmp/mutant.bak
-sed -i "$E" $F
-if cmp -s $F /tmp/mutant.bak; then echo "MUTATION DID NOT APPLY"; exit 3; fi
-git diff --stat | tail -1
-for c in "$@"; do /verif/bin/check $c quick 2>&1 | grep -E "VIOLATION|held|TOOL-ERROR|KNOWN" ; done
-cp /tmp/mutant.bak $F
-git -C /repo status --short | head -3
+D=/tmp/mut-$1
+mkdir -p $D/repo $D/harness
+rsync -a --delete --exclude target --exclude .git /repo/ $D/repo/
+rsync -a --exclude target /verif/harness/ $D/harness/
+find $D/harness -name Cargo.toml | xargs sed -i "s|\"/repo/crates/|\"$D/repo/crates/|g"
+cp $D/repo/$F $D/mutant.bak
+sed -i "$E" $D/repo/$F
+if cmp -s $D/repo/$F $D/mutant.bak; then echo "MUTATION DID NOT APPLY"; exit 3; fi
+( cd $D/repo && diff -u $D/mutant.bak $F | head -20 | grep '^[-+]' | grep -v '^[-+][-+]' )
+for c in "$@"; do VERIF_PRIVATE=$D VERIF_REPO=$D/repo /verif/bin/check $c quick 2>&1 | grep -E "VIOLATION|held|TOOL-ERROR|KNOWN" ; done
